@@ -71,6 +71,11 @@ pub trait Store: GarnishData<Size = usize, Number = SimpleNumber, Char = char, B
     }
     /// mark everything stored so far (program constants, the input value) as not collectable
     fn retain_now(&mut self) {}
+    /// what a host that compiles once and serves every request from a copy does: everything stored so far becomes
+    /// constant data and a working copy is taken (None: the store has no such operation)
+    fn working_copy(&mut self) -> Option<Result<Self, String>> {
+        None
+    }
 }
 
 // ---- scripted callbacks, shared by both stores
@@ -154,6 +159,16 @@ impl Store for SimpleD {
         }
         *d.auxiliary_data_mut() = host;
         d
+    }
+    fn working_copy(&mut self) -> Option<Result<Self, String>> {
+        let n = self.get_data_len();
+        if n == 0 {
+            return Some(Err("empty store".into()));
+        }
+        if let Err(e) = self.set_end_of_constant(n - 1) {
+            return Some(Err(format!("{}", e)));
+        }
+        Some(self.clone_with_aux_without_data().map_err(|e| format!("{}", e)))
     }
     fn reg_addrs(&self) -> Vec<usize> {
         self.get_registers().iter().filter(|a| !matches!(self.get_raw_data(**a), Some(SimpleData::StackFrame(_)))).cloned().collect()
